@@ -128,3 +128,29 @@ Definition C07_flood_ok (cap : Z) (base extras : list (Z * Z)) (lens : list (Z *
   list_eqb Z.eqb (zsort (map fst expect)) (zsort (surv_base ++ surv_extras)) &&
   forallb (fun p => (fst p =? cap) && (snd p =? cap)) lens &&
   (nitems =? cap) && (nqueue =? cap) && (heapviol =? 0) && (qidxviol =? 0) && (qvalviol =? 0).
+
+(* ---- C07 floods, per newcomer: the decision the eviction rule takes for every
+   newcomer in turn - whether it gets state and which client loses its state
+   (-1: nobody) - so that a wrong admission is seen when it happens and not
+   only if it survives to the end of the flood *)
+Fixpoint flood_decisions (small : list (Z * Z)) (extras : list (Z * Z)) : list (bool * Z) :=
+  match extras with
+  | [] => []
+  | x :: r =>
+      match min_entry small with
+      | Some m => if snd m <=? snd x then (true, fst m) :: flood_decisions (x :: remove_key (fst m) small) r
+                  else (false, -1) :: flood_decisions small r
+      | None => (false, -1) :: flood_decisions small r
+      end
+  end.
+
+(* observed: (1 = got state | 0, client that lost its state | -1) per newcomer *)
+Fixpoint decisions_match (d : list (bool * Z)) (obs : list (Z * Z)) : bool :=
+  match d, obs with
+  | [], [] => true
+  | (b, v) :: dr, (ob, ov) :: or => Bool.eqb b (ob =? 1) && (v =? ov) && decisions_match dr or
+  | _, _ => false
+  end.
+
+Definition C07_flood_decisions_ok (base extras : list (Z * Z)) (obs : list (Z * Z)) : bool :=
+  decisions_match (flood_decisions base extras) obs.
